@@ -782,71 +782,71 @@ func TestVerif(t *testing.T) {
 	}
 
 	pbound := ctx.Param("bound", 2)
-	var maxBound = pbound
+	startBound := ctx.Param("start_bound", pbound) // thorough: iterative deepening from the quick tier's bound
 	totalNodes := int64(0)
-	run := func(name string, big bool, body func(), verdict func(s *vs.Sched) (string, string), mk func(ch []int) c02Replay) {
-		bound := pbound
-		if big {
+	type unit struct {
+		name    string
+		big     bool
+		body    func()
+		verdict func(s *vs.Sched) (string, string)
+		mk      func(ch []int) c02Replay
+	}
+	var units []unit
+	// runAt explores one scenario with at most b deviations (one less for the many-thread scenarios); true = completed
+	runAt := func(u unit, b int) bool {
+		bound := b
+		if u.big {
 			bound--
 		}
-		// determinism self-test: the default schedule twice
-		s1 := vs.Run(nil, body)
-		sig1, _ := verdict(s1)
-		c1 := fmt.Sprint(s1.Choices(), s1.Steps)
-		s2 := vs.Run(nil, body)
-		sig2, _ := verdict(s2)
-		if c1 != fmt.Sprint(s2.Choices(), s2.Steps) || sig1 != sig2 {
-			ctx.Infra("determinism self-test failed for %s", name)
-			return
-		}
-		for b := bound; b <= bound; b++ {
-			if b < bound && ctx.Shard != 0 {
-				continue // lower bounds are subsumed; shard 0 runs them to report the iteration
-			}
-			opts := vs.Opts{Bound: b, Shard: ctx.Shard, Shards: ctx.Shards, Expired: ctx.Expired}
-			if b < bound {
-				opts.Shards = 1
-			}
-			st := vs.Explore(opts, body, func(s *vs.Sched, owned bool) bool {
-				sig, what := verdict(s)
-				if owned && b == bound {
-					ctx.R.Evals++
-					ctx.R.Traces++
-					if sig != "" {
-						ctx.Violate(sig, what, mk(s.Choices()))
-						ctx.Outcome(name + ":" + strings.SplitN(sig, ":", 2)[0])
-					} else {
-						ctx.Outcome(name + ":ok")
-					}
-					if ctx.R.Evals%5003 == 1 {
-						ctx.Sample(map[string]any{"scenario": name, "choices": fmt.Sprint(s.Choices()), "verdict": sig})
-					}
-				}
-				return sig == "" // a violating execution is reported once and not expanded
-			})
-			for _, x := range st.Infra {
-				ctx.Infra("%s bound %d: %s", name, b, x)
-			}
-			if b == bound {
-				ctx.R.Extra[fmt.Sprintf("execs_%s_bound%d", name, b)] = st.Counted
-				ctx.R.Trans += st.Steps
-				totalNodes += st.Nodes
-				if st.Capped {
-					ctx.Cap(fmt.Sprintf("%s: bound %d not completed", name, b))
-				}
-				if st.MaxThreads > 0 {
-					if v, _ := ctx.R.Extra["max_threads"].(int); st.MaxThreads > v {
-						ctx.R.Extra["max_threads"] = st.MaxThreads
-					}
-				}
+		name := u.name
+		if b == startBound {
+			// determinism self-test: the default schedule twice
+			s1 := vs.Run(nil, u.body)
+			sig1, _ := u.verdict(s1)
+			c1 := fmt.Sprint(s1.Choices(), s1.Steps)
+			s2 := vs.Run(nil, u.body)
+			sig2, _ := u.verdict(s2)
+			if c1 != fmt.Sprint(s2.Choices(), s2.Steps) || sig1 != sig2 {
+				ctx.Infra("determinism self-test failed for %s", name)
+				return false
 			}
 		}
+		opts := vs.Opts{Bound: bound, Shard: ctx.Shard, Shards: ctx.Shards, Expired: ctx.Expired}
+		st := vs.Explore(opts, u.body, func(s *vs.Sched, owned bool) bool {
+			sig, what := u.verdict(s)
+			if owned {
+				ctx.R.Evals++
+				ctx.R.Traces++
+				if sig != "" {
+					ctx.Violate(sig, what, u.mk(s.Choices()))
+					ctx.Outcome(name + ":" + strings.SplitN(sig, ":", 2)[0])
+				} else {
+					ctx.Outcome(name + ":ok")
+				}
+				if ctx.R.Evals%5003 == 1 {
+					ctx.Sample(map[string]any{"scenario": name, "choices": fmt.Sprint(s.Choices()), "verdict": sig})
+				}
+			}
+			return sig == "" // a violating execution is reported once and not expanded
+		})
+		for _, x := range st.Infra {
+			ctx.Infra("%s bound %d: %s", name, bound, x)
+		}
+		ctx.R.Extra[fmt.Sprintf("execs_%s_bound%d", name, bound)] = st.Counted
+		ctx.R.Trans += st.Steps
+		totalNodes += st.Nodes
+		if st.MaxThreads > 0 {
+			if v, _ := ctx.R.Extra["max_threads"].(int); st.MaxThreads > v {
+				ctx.R.Extra["max_threads"] = st.MaxThreads
+			}
+		}
+		return !st.Capped
 	}
 	for _, sc := range c02Scenarios(ctx) {
 		sc := sc
-		var h c02Hist
-		run(sc.Name, sc.Big, c02Body(sc, &h), func(s *vs.Sched) (string, string) { return c02Verdict(sc, &h, s) },
-			func(ch []int) c02Replay { return c02Replay{Scn: sc, Choices: ch} })
+		h := new(c02Hist)
+		units = append(units, unit{sc.Name, sc.Big, c02Body(sc, h), func(s *vs.Sched) (string, string) { return c02Verdict(sc, h, s) },
+			func(ch []int) c02Replay { return c02Replay{Scn: sc, Choices: ch} }})
 		ctx.Nontrivial(vr.HashS(sc.Name))
 	}
 	conds := []*c02CondScn{
@@ -857,12 +857,34 @@ func TestVerif(t *testing.T) {
 	}
 	for i, sc := range conds {
 		sc := sc
-		var o c02CondObs
+		o := new(c02CondObs)
 		name := fmt.Sprintf("D6-cond-%d", i)
-		run(name, sc.TwoSignals, c02CondBody(sc, &o), func(s *vs.Sched) (string, string) { return c02CondVerdict(sc, &o, s) },
-			func(ch []int) c02Replay { return c02Replay{Cond: sc, Choices: ch} })
+		units = append(units, unit{name, sc.TwoSignals, c02CondBody(sc, o), func(s *vs.Sched) (string, string) { return c02CondVerdict(sc, o, s) },
+			func(ch []int) c02Replay { return c02Replay{Cond: sc, Choices: ch} }})
 		ctx.Nontrivial(vr.HashS(name))
 	}
+	// iterative deepening: every scenario with <= b deviations before any with b+1; the completed bound is reported
+	completed := startBound - 1
+	for b := startBound; b <= pbound; b++ {
+		all := true
+		for _, u := range units {
+			if !runAt(u, b) {
+				all = false
+				ctx.Cap(fmt.Sprintf("%s: bound %d not completed", u.name, b))
+			}
+			if ctx.Expired() {
+				all = false
+				break
+			}
+		}
+		if !all {
+			if b > startBound {
+				ctx.Cap(fmt.Sprintf("time budget reached while deepening to bound %d; every scenario is complete up to bound %d", b, completed))
+			}
+			break
+		}
+		completed = b
+	}
 	ctx.R.States = totalNodes
-	ctx.R.Extra["bound_completed"] = maxBound
+	ctx.R.Extra["bound_completed"] = completed
 }
